@@ -225,8 +225,6 @@ def strict_json_string_ok(line, expected):
 def replay_print_string(ctx, cands):
     from .cli import run_jawk, show
     for c in cands:
-        if c.unmodelled:
-            c.status = 'inconclusive'; continue
         cps = c.model.get('chars')
         if not cps:
             c.status = 'unit'; continue
@@ -276,12 +274,15 @@ def print_numbers(ctx):
     run.absorb(ex)
     from .cli import run_jawk, show
     for c in fam.candidates:
-        if c.unmodelled: c.status = 'inconclusive'; continue
-        vals = {'print_u64': '18446744073709551615', 'print_i64': '-9223372036854775808', 'print_f64': '1.5'}
+        vals = {'print_u64': ['18446744073709551615', '0'], 'print_i64': ['-9223372036854775808', '-1'], 'print_f64': ['1.5', '1e30', '-1e19', '5e-324', '18446744073709551616']}
         argv = ['--style', 'consise'] if c.model['who'] == 'JsonOutputOptions' else ['-o', 'text']
-        r = run_jawk(ctx, argv, vals[c.model['fn']].encode())
-        c.replay = {'argv': argv, 'stdin': vals[c.model['fn']], 'actual': show(r['stdout'])}
-        c.status = 'reproduced' if r['stdout'].strip() != vals[c.model['fn']].encode() else 'unit'
+        c.status = 'unit'
+        for v_ in vals[c.model['fn']]:
+            r = run_jawk(ctx, argv, v_.encode())
+            try: same = float(show(r['stdout']).strip()) == float(v_) and (c.model['fn'] == 'print_f64' or show(r['stdout']).strip() == v_)
+            except Exception: same = False
+            c.replay = {'argv': argv, 'stdin': v_, 'actual': show(r['stdout'])}
+            if not same: c.status = 'reproduced'; break
 
 
 def json_framing(ctx):
@@ -332,8 +333,152 @@ def json_framing(ctx):
     run.absorb(ex)
     from .cli import run_driver, show
     for c in fam.candidates:
-        if c.unmodelled: c.status = 'inconclusive'; continue
         r = run_driver(ctx, ['--style', 'consise', '--row-seperator', '|'], b'1 [2] "x"')
         r2 = run_driver(ctx, ['--style', 'consise'], b'1 2', env={'FAIL_WRITE_AT': '1'})
         c.replay = {'argv': ['--style', 'consise', '--row-seperator', '|'], 'stdin': '1 [2] "x"', 'expected': '1|[2]|"x"|', 'actual': show(r['stdout']), 'write_failure_result': r2['result']}
         c.status = 'reproduced' if r['stdout'] != b'1|[2]|"x"|' or not str(r2['result']).startswith('err') else 'unit'
+
+
+# ---------------------------------------------------------------- structure x style
+def shapes(width, depth):
+    leaves = [None, True, 7, 'k']
+    def gen(d):
+        out = list(leaves)
+        if d == 0: return out
+        sub = gen(d - 1)
+        small = [None, 7, 'k'] + [s for s in sub if isinstance(s, (list, dict))][:6]
+        for w in range(0, width + 1):
+            if w == 0: out += [[], {}]; continue
+            for combo in itertools.islice(itertools.product(small, repeat=w), 0, 40 if w > 1 else 10):
+                out.append(list(combo)); out.append({f'k{i}': v for i, v in enumerate(combo)})
+        return out
+    res = []
+    for s in gen(depth):
+        if s not in res: res.append(s)
+    # member names and strings that need escaping (member names go through the same string printer)
+    res += [{'q"': 7}, {'b\\': None}, {'n\n': 'k'}, {'\u00e9': 7, 'k': 'a"b'}, ['a"b', 'c\\d'], {'k': {'q"': [7]}}]
+    return res
+
+
+def build_value(st, ex, v, N):
+    JV = ex.enums['JsonValue']; NV = ex.enums['NumberValue']
+    if v is None: return mk_enum(st, 'JsonValue', JV.index('Null'))
+    if isinstance(v, bool): return mk_enum(st, 'JsonValue', JV.index('Boolean'), 'Boolean', (BoolV(z3.BoolVal(v)),))
+    if isinstance(v, int): return mk_enum(st, 'JsonValue', JV.index('Number'), 'Number', (mk_enum(st, 'NumberValue', NV.index('Positive'), 'Positive', (BV(N),)),))
+    if isinstance(v, str): return mk_enum(st, 'JsonValue', JV.index('String'), 'String', (seqobj(st, 'String', [BV(z3.BitVecVal(ord(c), 32)) for c in v]),))
+    if isinstance(v, list): return mk_enum(st, 'JsonValue', JV.index('Array'), 'Array', (seqobj(st, 'Vec', [build_value(st, ex, x, N) for x in v]),))
+    return mk_enum(st, 'JsonValue', JV.index('Object'), 'Object', (seqobj(st, 'IndexMap', [(seqobj(st, 'String', [BV(z3.BitVecVal(ord(c), 32)) for c in k]), build_value(st, ex, x, N)) for k, x in v.items()]),))
+
+
+def _structure_task(args):
+    ctx, chunk = args
+    calib = calibrate()
+    def s_enumerate(ex, st, func, args, ty):
+        it = obj(st, args[0]); items = []
+        for i, x in enumerate(st.heap[it.oid]['model']):
+            t = named(st, st.fresh_name('ix'), 'tuple'); st.heap[t.oid][('f', None, 0)] = BV(bv64(i)); st.heap[t.oid][('f', None, 1)] = x; items.append(t)
+        return [(st, seqobj(st, 'Enumerate', items))]
+    def s_map_iter(ex, st, func, args, ty):
+        items = []
+        for k, v in model(st, args[0]):
+            t = named(st, st.fresh_name('kv'), 'tuple'); st.heap[t.oid][('f', None, 0)] = slot(st, k); st.heap[t.oid][('f', None, 1)] = slot(st, v); items.append(t)
+        return [(st, seqobj(st, 'Iter', items))]
+    def s_ri_new(ex, st, func, args, ty):
+        o = named(st, st.fresh_name('ri'), 'RangeInclusive'); st.heap[o.oid]['cur'] = cval(args[0].t); st.heap[o.oid]['end'] = cval(args[1].t)
+        if st.heap[o.oid]['cur'] is None or st.heap[o.oid]['end'] is None: raise Broken('symbolic indentation range')
+        return [(st, o)]
+    def s_ri_next(ex, st, func, args, ty):
+        o = obj(st, args[0]); c, e = st.heap[o.oid]['cur'], st.heap[o.oid]['end']
+        if c > e: return [(st, none(st))]
+        st.heap[o.oid]['cur'] = c + 1; return [(st, some(st, BV(bv64(c))))]
+    def s_str_deref(ex, st, func, args, ty): return [(st, args[0])]
+    summ = [(r'IndexMap::<.*>::iter$|<&IndexMap<.*> as IntoIterator>::into_iter$', s_map_iter), (r'as Iterator>::enumerate$', s_enumerate),
+            (r'impl \[.*\]>::iter$|<&\[.*\] as IntoIterator>::into_iter$|<&Vec<.*> as IntoIterator>::into_iter$', s_iter_ref),
+            (r'RangeInclusive::<usize>::new$', s_ri_new), (r'RangeInclusive<usize> as Iterator>::next$', s_ri_next),
+            (r'IndexMap::<.*>::len$|impl \[.*\]>::len$|Vec::<.*>::len$', s_seq_len), (r'IndexMap::<.*>::is_empty$|impl \[.*\]>::is_empty$|Vec::<.*>::is_empty$', s_seq_is_empty),
+            (r'<std::string::String as Deref>::deref$|<Vec<.*> as Deref>::deref$|String::as_str$', s_str_deref), (r'as IntoIterator>::into_iter$', s_identity)] + base_summaries(calib) + \
+           [(r'<Enumerate<.*> as Iterator>::next$|<indexmap::map::Iter<.*> as Iterator>::next$|<std::slice::Iter<.*> as Iterator>::next$', s_iter_next)]
+    inl = []
+    for name in ctx.fns:
+        m = re.match(r'^Print::(print_something|print_number|print)$', name)
+        if m:
+            inl.append((r'Print<[^>]*>>::%s$' % m.group(1), '^' + re.escape(name) + '$'))
+        m = re.match(r'^output_style::<impl at [^>]*>::(print_object_with_indent|print_array_with_indent|insert_indent|insert_comma)$', name)
+        if m:
+            inl.append((r'JsonOutputOptions::%s(::<W>)?$' % m.group(1), '^' + re.escape(name) + '$'))
+        m = re.match(r'^output_style::<impl at [^>]*>::(print_\w+)$', name)
+        if m and 'JsonOutputOptions' in ctx.fns[name].params[0][1] and not m.group(1).endswith('_with_indent'):
+            inl.append((r'<JsonOutputOptions as Print<[^>]*>>::%s$|<Self as Print<W>>::%s$' % (m.group(1), m.group(1)), '^' + re.escape(name) + '$'))
+    ex = ctx.exec(summaries=summ, inline=inl, max_visits=200)
+    F = ex.find(r'^Print::print_something$')
+    JO = ctx.structs['JsonOutputOptions']; STY = ctx.enums['JsonStyle']
+    res = {'paths': 0, 'obl': 0, 'ok': 0, 'cands': [], 'samples': []}
+    N = z3.BitVec('N', 64)
+    for v in chunk:
+        st = State(); so = st.new_obj('self', 'JsonOutputOptions'); selfref = slot(st, ObjV(so), 'self*')
+        style = named(st, 'style', 'JsonStyle'); st.heap[so][('f', None, JO.index('style'))] = style
+        sd = ex.discr(st, style).t; st.pc.append(z3.And(sd >= 0, sd < len(STY)))
+        st.heap[so][('f', None, JO.index('utf8_strings'))] = BoolV(z3.BoolVal(False))      # string escaping is print.string's subject
+        val = build_value(st, ex, v, N)
+        ex.new_frame(st, F, [selfref, slot(st, named(st, 'W', 'W'), 'w*'), slot(st, val, 'val*')])
+        for d in ex.run(st):
+            if d.status == 'infeasible': continue
+            res['paths'] += 1; res['obl'] += 1
+            hav = (d.havoc or [None])[0]
+            ok_, m = ex.valid(d, z3.BoolVal(False))
+            sty = STY[m.eval(sd, True).as_long()] if m is not None else '?'
+            feas = [x for x in STY if ex.feasible(d, sd == STY.index(x))]
+            if d.status != 'returned':
+                res['cands'].append({'role': f'path-{d.status}', 'text': f'print_something({json.dumps(v)}) {sty}: {d.status} {d.notes[-1:]}', 'model': {'value': v, 'style': sty}, 'unmodelled': hav}); continue
+            out = [b for e in d.events if e[0] == 'out' for b in e[2]]
+            txt = ''
+            bad = None
+            for b in out:
+                if isinstance(b, Tok):
+                    if b.ty != 'u64' or not ex.valid(d, b.value == N)[0]: bad = 'number token is not the value'
+                    txt += '7'
+                else:
+                    c = cval(b)
+                    if c is None: bad = 'symbolic byte in structural output'; break
+                    txt += chr(c)
+            exps = {'OneLine': json.dumps(v), 'Consise': json.dumps(v, separators=(',', ':')), 'Pretty': json.dumps(v, indent=2)}
+            for x in feas:       # every style this path stands for
+                if bad is None and txt != exps[x]: bad = f'prints {txt!r}, expected {exps[x]!r}'; sty = x
+            if bad is None:
+                res['ok'] += 1
+                if sty == 'Pretty' and isinstance(v, (list, dict)) and len(v) >= 2 and len(res['samples']) < 1:
+                    res['samples'].append({'value': v, 'style': sty, 'text': txt, 'verdict': 'RFC 8259 text of the value with the style\'s whitespace, for every number N'})
+            else:
+                kind = 'nested' if any(isinstance(x, (list, dict)) for x in (v.values() if isinstance(v, dict) else v if isinstance(v, list) else [])) else 'flat' if isinstance(v, (list, dict)) else 'scalar'
+                res['cands'].append({'role': f'structure:{sty}:{kind}', 'text': f'{sty} output of {json.dumps(v)}: {bad}', 'model': {'value': v, 'style': sty}, 'unmodelled': hav})
+    res.update(queries=ex.queries, solver_s=ex.solver_s, unhandled=dict(ex.unhandled), summaries=list(ex.used_summaries), bodies=list(ex.used_bodies))
+    return res
+
+
+def print_structure(ctx):
+    run = ctx.run
+    width, depth = (2, 2) if ctx.quick else (3, 2)
+    sh = shapes(width, depth)
+    run.bounds['print structure'] = f'{len(sh)} value shapes: containers up to {width} wide and {depth} deep over leaves null/true/number(any u64)/string; the style is a free variable'
+    fam = run.family('print.structure', 'for every shape and style the output is the RFC 8259 text of the value: concise without whitespace, one-line `, `/`: ` separated, pretty one element per line with 2*depth spaces')
+    chunks = [sh[i::16] for i in range(16)]
+    results = pmap(_structure_task, [(ctx, c) for c in chunks if c])
+    seen = {}
+    for r in results:
+        run.paths += r['paths']; run.queries += r['queries']; run.solver_s += r['solver_s']
+        fam.obligations += r['obl']; fam.discharged += r['ok']; fam.witnesses += r['ok']; fam.paths += r['paths']
+        for k, v in r['unhandled'].items(): run.unmodelled[k] += v
+        for s in r['summaries']: run.summaries[s] = True
+        for b in r['bodies']: run.functions[b] = True
+        for s in r['samples']: fam.add_sample(s)
+        for c in r['cands']:
+            if c['role'] not in seen: seen[c['role']] = Candidate(fam.name, c['role'], c['text'], c['model'], unmodelled=c['unmodelled'])
+    fam.candidates = list(seen.values())
+    from .cli import run_jawk, show
+    for c in fam.candidates:
+        v = c.model['value']; sty = c.model.get('style', 'OneLine')
+        argv = ['--style', {'OneLine': 'one-line', 'Consise': 'consise', 'Pretty': 'pretty'}[sty]]
+        r = run_jawk(ctx, argv, json.dumps(v).encode())
+        exp = {'OneLine': json.dumps(v), 'Consise': json.dumps(v, separators=(',', ':')), 'Pretty': json.dumps(v, indent=2)}[sty] + '\n'
+        c.replay = {'argv': argv, 'stdin': json.dumps(v), 'expected': exp, 'actual': show(r['stdout'])}
+        c.status = 'reproduced' if show(r['stdout']) != exp else 'not-reproduced'
